@@ -422,11 +422,13 @@ theorem pushScalar_LR (ext : Ext) (he : ExtOK ext) (hf : FloatOK) : ∀ (b : B) 
     · split at h
       · obtain ⟨idx', h1, h2⟩ := (bind_ok _ _ _).1 h
         cases h2
+        rw [ctx_eq_ok] at h1
         simp only [LR]
         exact ⟨pushScalar_LR ext he hf idx (.int .u64 _) idx' (Or.inl rfl) h1 hp.1, hp.2⟩
       · obtain ⟨vals', h1, h2⟩ := (bind_ok _ _ _).1 h
         obtain ⟨idx', h3, h4⟩ := (bind_ok _ _ _).1 h2
         cases h4
+        rw [ctx_eq_ok] at h1 h3
         simp only [LR]
         exact ⟨pushScalar_LR ext he hf idx (.int .u64 _) idx' (Or.inl rfl) h3 hp.1,
           pushScalar_LR ext he hf vals (.str _) vals' trivial h1 hp.2⟩
